@@ -78,6 +78,8 @@ def to_set(ex, v, node, esort_hint=None):
     return L[('opaque.toset', v.okind)](ex, v, node)
   if hasattr(v, 'py_toset'):
     return v.py_toset(ex, node)
+  if v.kind == 'iter' and getattr(v, 'whole', None) is not None:
+    return VSet(v.whole, v.visited_sort)
   ex.unsupported(node, 'set() of %s' % v.kind)
 
 
